@@ -145,8 +145,33 @@ def run(ctx):
             bl = [b[0] for b in box if b[1] == kind]
             if not bl:
                 continue
-            rc1, mo, e1 = fam.model(u, bl)
-            go = run_lines_resilient(u.gen.exe, [], bl, timeout=600)
+            # in rounds (one op per item and round): an item whose object kills the process on read / Reset
+            # (recursive types, F39 / F7: owned by C08 / C18) is dropped after the first crash
+            by_name = {}
+            for l in bl:
+                by_name.setdefault(l.split(" ")[2], []).append(l)
+            done, go_of = [], {}
+            alive = list(by_name)
+            rnd = 0
+            while alive:
+                cur = [by_name[n][rnd] for n in alive if rnd < len(by_name[n])]
+                if not cur:
+                    break
+                out = run_lines_resilient(u.gen.exe, [], cur, timeout=600, max_restarts=60)
+                dead = set()
+                for l, o in zip(cur, out):
+                    done.append(l)
+                    go_of[l] = o
+                    if o.startswith("crash"):
+                        dead.add(l.split(" ")[2])
+                for n in dead:
+                    with fam.lock:
+                        skipped.setdefault("object crashes the process on read/Reset (recursive type, F39/F7)", []).append(f"{u.name}:{n}")
+                alive = [n for n in alive if n not in dead]
+                rnd += 1
+            bl = done
+            go = [go_of[l] for l in bl]
+            mo = fam.model_resilient(u, bl)
             fam.compare(u, bl, mo, go, kind)
             for l, g in zip(bl, go):
                 if not g.startswith("ok "):
